@@ -9,6 +9,10 @@ ids = [json.loads(l)['id'] for l in (V / 'properties.jsonl').read_text().splitli
 TECH = 'contract-based deductive verification: own VC generator (pyvc) over the real .py/.pyx source, sidecar contracts, z3/cvc5'
 
 CLAIMED = {
+	'C05': dict(
+		text='_jaccarddist_parallel (real .pyx text, three type instantiations) is verified with a loop invariant "out[r] = D(query, r-th segment)" plus prange frame obligations (every iteration writes only its own cell, reads no written array, written and read views are different objects, assigned scalars are declared locals), which is what makes all interleavings and thread counts equal to the sequential result; jaccarddist_array is verified on both branches (concatenated fast path through the kernel contract incl. the bounds/dtype casts, and the per-item loop) for caller-supplied and allocated buffers incl. the ValueError cases; chunk_slices (generator; coverage of 0..n-1) and num_pairs. jaccarddist_matrix / jaccarddist_pairwise are covered by a BOUNDED stand-in only (bitwise comparison with a double loop over containers, chunk sizes, index selections with repeats, 1..16 threads, repeated runs).',
+		note='Trusted: C02 base (D as the kernel value), OpenMP/Cython prange semantics, NumPy views. Bounded only: matrix and pairwise.',
+		design='3/C05'),
 	'C20': dict(
 		text='AdvancedIndexingMixin.__getitem__ is verified for every index kind (int, all eight None/int slice shapes, ill-typed slice fields, step 0, integer arrays of seven dtypes, boolean masks, float arrays, lists, the empty list) against an abstract sequence: result item j = item norm(index[j]) (Python negative-index rule), slices select range(*indices(n)), masks select the non-zero positions in order, IndexError/TypeError/ValueError exactly as a list/NumPy would, and the caller\'s index array is unchanged; _check_index, _getitem_slice, _getitem_bool_array separately. The NumPy contract for np.add carries the fixed width of the output dtype: on the original tree the int8/int16/int32 instances failed (wrap-around), the bounded run replayed it (130 signatures, int8 index -1), a fix: commit widened the copy, and all instances now discharge. The concrete hooks of SignatureList / ConcatenatedSignatureArray are verified to refine the abstract ones; the remaining container code is bounded only (plain-list differential, labelled).',
 		note='Trusted: NumPy/slice contracts listed in the evidence; len < 2^63. Bounded only: _getitem_int_array, contiguous slice fast path, construction, HDF5-backed collections, del/insert, equality.',
